@@ -321,10 +321,35 @@ def shadowing(ctx):
                                                                    "want": repr(want), "compiled": compiled})
 
 
+def folded_length_source(ctx):
+    """Pinned witness of the open finding K12: the fields folded in from an anonymous structure member are fields
+    parsed before the array, a length may name them."""
+    for compiled in (True, False):
+        for text, data, want in [
+            ("struct T { struct { uint8 n; }; uint8 a[n]; uint8 t; };", bytes([2, 9, 8, 7]), ([9, 8], 7)),
+            ("struct T { struct { uint8 k; uint8 n; }; uint8 a[n + 1]; uint8 t; };", bytes([5, 1, 9, 8, 7]), ([9, 8], 7)),
+        ]:
+            ctx.evaluation(("folded-length", text, compiled))
+            ctx.cell("folded-length-source")
+            try:
+                cs = lib.load(text, compiled=compiled)
+                o = cs.T(data)
+                got = ([int(x) for x in o.a], int(o.t))
+            except Exception as e:  # noqa: BLE001
+                got = lib.exc_sig(e)
+            if got != want:
+                ctx.violation("folded-length", "K12:length-expression-cannot-see-fields-of-a-preceding-anonymous-member",
+                              {"text": text, "data": data.hex(), "got": repr(got), "want": repr(want), "compiled": compiled,
+                               "workload": "folded-length"})
+            else:
+                ctx.event("folded_length_resolved")
+
+
 def run(ctx):
     if ctx.shard == 0:
         direct_use(ctx, ctx.rng("direct"))
         shadowing(ctx)
+        folded_length_source(ctx)
     # the element kind x length form matrix, every cell on every run
     cells = []
     tmp = gen.Gen(ctx.rng("kinds"))
@@ -365,7 +390,9 @@ def run(ctx):
 def replay(ctx, detail):
     if "ast" not in detail:
         print("record:", detail)
-        if "text" in detail and "#define" in detail["text"]:
+        if detail.get("workload") == "folded-length":
+            folded_length_source(ctx)
+        elif "text" in detail and "#define" in detail["text"]:
             shadowing(ctx)
         else:
             direct_use(ctx, ctx.rng("direct"))
